@@ -15,10 +15,11 @@
   * `hitobject_lines_accepted_partial`: the lines of circles, spinners and hold notes are LF-free record lines accepted by
     `parse_hit_objects` in any state, and the same kind of object comes back (for every lawful codec).
   Slider lines and the statement over all four kinds are in Props/C04Slider.lean (`slider_line_accepted`,
-  `hitobject_lines_accepted`, `hitobjects_block_accepted`).
-  Still only a statement (evaluated by the `lines` oracle and the `enc` correspondence): timing-point lines, that every
-  object of a decoded map is representable, and hence that the whole `[TimingPoints]` and `[HitObjects]` blocks of a
-  decoded map are LF-free record lines accepted by their parsers (`list_block_lines_accepted_statement`).
+  `hitobject_lines_accepted`, `hitobjects_block_accepted`). The `[TimingPoints]` block is in Props/C04Timing.lean
+  (`timing_block_lines`, `timing_lines_accepted`, `record_and_timing_blocks_accepted`).
+  Still only a statement in THIS file (evaluated by the `lines` oracle and the `enc` correspondence): that every
+  object and every collected control point of a decoded map is representable, and hence the unconditional
+  `list_block_lines_accepted_statement`.
 -/
 import RosuModel.Model.Encode
 import RosuModel.Props.C10
